@@ -5,7 +5,7 @@ C06 driver.  Case lines (REC as in C05: NAME/TYPE/CLS/TTL/RDATA):
   attl EXP OTTL RECTTL NOW                     → authenticated TTL
   vk NOW KPROOF KEY SIG NAME TYPE ORC REC*     → `ok P TTL|none` | `err P`    (verify_rrset_with_dnskey)
   begin [ta=ALG:PK,…] [pos=LO:HI] [neg=LO:HI]  → resets the validation cache (ta: trust anchors, harness only)
-  h NOW INST CK KEYS SIG NAME TYPE ORCS REC*   → `fresh|cached P ttl… sig P TTL` (verify_rrsets via send)
+  h NOW INST CK KEYS SIG NAME TYPE ORCS REC*   → `fresh|cached P ttl… sig P TTL dev=XY` (verify_rrsets via send; X: class outlivesSignature, Y: class sameKeyOtherRdata)
   hf …same…                                    → the same for the model of the repaired cache (validateFixed)
   end
 KEY  = OWNER;FLAGS;ALG;PUBKEYHEX        KEYS = KEY;PROOF|KEY;PROOF|…  (`-` = none)
@@ -24,6 +24,8 @@ open HickoryVerif HickoryVerif.Drv HickoryVerif.Tbs HickoryVerif.SigCheck
 structure State where
   cache : Cache := []
   cfg : CacheConfig := {}
+  /-- the requests of the current history whose verdict was freshly computed -/
+  past : List Request := []
   deriving Inhabited
 
 def init : State := {}
@@ -109,7 +111,7 @@ def step (s : State) (toks : List String) : State × String :=
     (s, r.getD "bad-op")
   | "begin" :: cfg =>
     match parseCfg cfg {} with
-    | some c => ({ cache := [], cfg := c }, "begin")
+    | some c => ({ cache := [], cfg := c, past := [] }, "begin")
     | none => (s, "bad-op")
   | ["end"] => ({}, "end")
   | op :: now :: inst :: ck :: keys :: sg :: name :: ty :: orcs :: recs =>
@@ -131,8 +133,9 @@ def step (s : State) (toks : List String) : State × String :=
       let ttls := " ".intercalate (recs.map fun r => toString (updatedTtl v r.ttl))
       let sigOut :=
         if v.isOk then s!"{showProof v.proof} {updatedTtl v sg.ttl}" else s!"N {sg.ttl}"
-      pure ({ s with cache := c' },
-        s!"{if fresh then "fresh" else "cached"} {showProof v.proof} {ttls} sig {sigOut}")
+      let dev2 := !fresh && v.proof == .secure && s.past.any (fun r' => sameKeyOtherRdata r' req)
+      pure ({ s with cache := c', past := if fresh then req :: s.past else s.past },
+        s!"{if fresh then "fresh" else "cached"} {showProof v.proof} {ttls} sig {sigOut} dev={showBool (outlivesSignature req v fresh)}{showBool dev2}")
     r.getD (s, "bad-op")
   | _ => (s, "bad-op")
 
